@@ -299,3 +299,33 @@ PROPS["C06"] = dict(
             "thorough": "all 9 (delay,descending) settings, all assumption subsets, all graphs with 3 blocks"},
     outside=["graphs with more than 5 blocks (3 with symbolic adjacency)", "state spaces larger than 3 elements", "start blocks inside a loop (excluded by the property)"],
     assumptions=E2_ASSUME)
+
+# ---------------------------------------------------------------- C07: WTO
+def c07_jobs(tier, seed):
+    J = []
+    for nv in (1, 2, 3):
+        for e in range(nv):
+            orders = ["".join(map(str, range(nv))), "".join(map(str, reversed(range(nv))))]
+            for o in sorted(set(orders)):
+                J.append(Job("c07", {"nv": nv, "entry": e, "order": o}, what="all graphs with %d nodes, entry %d, successor order %s" % (nv, e, o), witnesses=2))
+    rng = random.Random(70 + seed)
+    o4 = ["0123", "3210"]
+    if tier == "thorough":
+        import itertools
+        o4 = ["".join(p) for p in itertools.permutations("0123")]
+    for o in o4:
+        for e in ((0,) if tier == "quick" else (0, 1, 2, 3)):
+            J.append(Job("c07", {"nv": 4, "entry": e, "order": o}, what="all graphs with 4 nodes (2^16 adjacency matrices, explored through the bits the algorithm reads)", budget=900, shards=16, shard_depth=10, witnesses=1))
+    if tier == "thorough":
+        J.append(Job("c07", {"nv": 5, "entry": 0, "order": "01234"}, what="graphs with 5 nodes (attempted under a path budget)", budget=3000, shards=16, shard_depth=12, witnesses=1, soft=True))
+    return J
+
+
+PROPS["C07"] = dict(
+    jobs=c07_jobs,
+    explanation="The real ikos::wto<G> runs on a graph whose adjacency bits are solver symbols read lazily (the algorithm forks on every bit it inspects; all combinations are explored); "
+                "the well-formedness conditions (each node reachable from the entry exactly once - reachability being a formula over ALL bits -, edge condition, proper nesting, nesting() = strictly enclosing heads outermost first) are decided by z3 on every path. "
+                "For this structure-only property the solver's contribution is the exhaustive, demand-driven enumeration of graphs and the decision of the reachability formula over the unread bits.",
+    bounds={"quick": "all directed graphs with <= 4 nodes (self loops, unreachable nodes, irreducible cycles included), every entry node for <= 3 nodes, two successor orders", "thorough": "4 nodes: every entry node and all 24 global successor orders; 5 nodes attempted under a budget"},
+    outside=["graphs with more than 4 nodes", "successor orders that differ from node to node (orders are a global permutation of the node numbering)", "call-graph instantiation cg_bgl.hpp (same template)"],
+    assumptions=E2_ASSUME)
